@@ -1702,17 +1702,17 @@ def run(ctx):
     recs = unit_stream(ctx, consts)
     _tick(ctx, "unit")
     ctx.check_time()
-    staged = pipeline_stream(ctx, pipeline_cases(ctx, 3000 if thorough else 240))
+    staged = pipeline_stream(ctx, pipeline_cases(ctx, 6000 if thorough else 240))
     _tick(ctx, "pipeline")
-    line_echo_stream(ctx, staged, 1200 if thorough else 100, workers)
+    line_echo_stream(ctx, staged, 2400 if thorough else 100, workers)
     _tick(ctx, "g++ line echo")
     ctx.check_time()
-    book_stream(ctx, 6000 if thorough else 600)
+    book_stream(ctx, 9000 if thorough else 600)
     _tick(ctx, "book")
-    names_pipeline_stream(ctx, 900 if thorough else 90)
+    names_pipeline_stream(ctx, 1500 if thorough else 90)
     _tick(ctx, "names")
     ctx.check_time()
-    echo_stream(ctx, recs, 8000 if thorough else 400, workers)
+    echo_stream(ctx, recs, 12000 if thorough else 400, workers)
     _tick(ctx, "g++ echo")
     lexer_validation(ctx, thorough)
     _tick(ctx, "lexer validation")
